@@ -692,11 +692,20 @@ func genFspecD(r *h.RNG, depth int, inAspect bool, maxDepth, maxWidth int) *fspe
 	if depth == 0 && r.Chance(35) {
 		// transaction-level join points (their Aspects issue no EVM calls here: such a call would itself be announced
 		// as a top-level frame)
-		for i, n := 0, r.Intn(3); i < n; i++ {
-			f.preTx = append(f.preTx, &aspec{errKind: r.Intn(5)})
+		txAsp := func() *aspec {
+			a := &aspec{errKind: r.Intn(5)}
+			if r.Chance(40) {
+				for c, nc := 0, 1+r.Intn(2); c < nc; c++ {
+					a.calls = append(a.calls, genFspecD(r, depth+1, true, maxDepth, maxWidth))
+				}
+			}
+			return a
 		}
 		for i, n := 0, r.Intn(3); i < n; i++ {
-			f.postTx = append(f.postTx, &aspec{errKind: r.Intn(5)})
+			f.preTx = append(f.preTx, txAsp())
+		}
+		for i, n := 0, r.Intn(3); i < n; i++ {
+			f.postTx = append(f.postTx, txAsp())
 		}
 	}
 	if depth < maxDepth {
